@@ -9,7 +9,7 @@
     leaveUnready  deferred, under `L`: `ready = false; Broadcast()`
     leaveDec      `atomic.AddInt32(&count, -1)`
     leaveDel      `if atomic.LoadInt32(&count) == 0 { summoningSwamps.Delete(name) }`
-    closeCallback `swamps.Delete(name)` when an instance has closed itself
+    closeInst / staleCallback: `swamps.Delete(name)` from an instance's close callback
   `ready` is refined by the ghost `owner` (which thread set it).  `count` is incremented only by
   waiters and decremented by everyone who ran the body.  Slot objects have identity: a thread
   keeps its pointer after the map entry is gone.
@@ -24,6 +24,9 @@ namespace Hv.Summon
 
 structure Cfg where
   refCounted : Bool
+  /-- the close callback removes the map entry only if it still is the closing instance
+      (`CompareAndDelete(name, inst)`); `false`: `swamps.Delete(name)` — by name, whoever is mapped -/
+  callbackCompares : Bool
   deriving DecidableEq, Repr
 
 inductive Pc where
@@ -52,16 +55,24 @@ structure St where
   swampMap : Option Nat
   live : List Nat
   nextInst : Nat
+  /-- instances that have been stored in `swamps` at some point (handles others may hold) -/
+  published : List Nat
 
 def init : St :=
   { slots := fun _ => Slot.fresh, nextSlot := 0, slotMap := none, thr := fun _ => ⟨.idle, 0⟩,
-    swampMap := none, live := [], nextInst := 0 }
+    swampMap := none, live := [], nextInst := 0, published := [] }
 
 inductive Act where
   | lookup (t : Nat) | enter (t : Nat) | giveUp (t : Nat)
   | bodyCtxDone (t : Nat) | bodyGet (t : Nat) | bodyCreate (t : Nat) | bodyStore (t : Nat)
   | leaveUnready (t : Nat) | leaveDec (t : Nat) | leaveDel (t : Nat)
-  | closeCallback
+  /-- a live, published instance closes itself (idle close, `Close()`, `Destroy()`): its file handle
+      goes away and its close callback runs -/
+  | closeInst (i : Nat)
+  /-- the close callback of an instance that is already gone runs again (`Destroy()` on a stale
+      handle after `Close()`: `gateway.Destroy` holds no vigil and `Destroy` always ends in
+      `sendClosedEvent`) -/
+  | staleCallback (i : Nat)
   deriving DecidableEq, Repr
 
 def setThr (s : St) (t : Nat) (x : Thread) : Nat → Thread := fun y => if y = t then x else s.thr y
@@ -70,6 +81,10 @@ def setSlot (s : St) (σ : Nat) (x : Slot) : Nat → Slot := fun y => if y = σ 
 /-- `Broadcast` on slot `σ`: every thread waiting there re-evaluates its loop -/
 def wake (thr : Nat → Thread) (σ : Nat) : Nat → Thread :=
   fun y => if (thr y).pc = .waiting ∧ (thr y).slot = σ then ⟨.woken, σ⟩ else thr y
+
+/-- the close callback of instance `i` on the `swamps` map -/
+def unmap (cfg : Cfg) (m : Option Nat) (i : Nat) : Option Nat :=
+  if cfg.callbackCompares then (if m = some i then none else m) else none
 
 def step (cfg : Cfg) (s : St) : Act → Option St
   | .lookup t =>
@@ -117,7 +132,7 @@ def step (cfg : Cfg) (s : St) : Act → Option St
   | .bodyStore t =>
     let x := s.thr t
     match x.pc with
-    | .created i => some { s with thr := setThr s t ⟨.leaving, x.slot⟩, swampMap := some i }
+    | .created i => some { s with thr := setThr s t ⟨.leaving, x.slot⟩, swampMap := some i, published := s.published ++ [i] }
     | _ => none
   | .leaveUnready t =>
     let x := s.thr t
@@ -143,10 +158,12 @@ def step (cfg : Cfg) (s : St) : Act → Option St
       some { s with thr := setThr s t ⟨.done, x.slot⟩,
                     slotMap := if (s.slots x.slot).count = 0 then none else s.slotMap }
     else none
-  | .closeCallback =>
-    match s.swampMap with
-    | some i => some { s with swampMap := none, live := s.live.erase i }
-    | none => none
+  | .closeInst i =>
+    if i ∈ s.live ∧ i ∈ s.published then
+      some { s with live := s.live.erase i, swampMap := unmap cfg s.swampMap i }
+    else none
+  | .staleCallback i =>
+    if i ∈ s.published ∧ i ∉ s.live then some { s with swampMap := unmap cfg s.swampMap i } else none
 
 abbrev run (cfg : Cfg) := LTS.run (step cfg)
 
